@@ -128,7 +128,7 @@ def is_numeric(v):
     return z3.Or(is_int(v), is_float(v), is_bool(v))
 
 
-def num(v):
+def _num_def(v):
     """numeric value as a Real (bool -> 0/1); unspecified on other tags."""
     return z3.If(is_int(v), z3.ToReal(Val.i(v)),
                  z3.If(is_float(v), Val.r(v),
@@ -147,7 +147,7 @@ def is_seq(v):
     return z3.Or(is_list(v), is_tuple(v), is_set(v))
 
 
-def truthy(v):
+def _truthy_def(v):
     """bool(v) for values without user-defined __bool__/__len__ (instances are truthy)."""
     return z3.If(is_none(v), False,
            z3.If(is_bool(v), Val.b(v),
@@ -230,13 +230,26 @@ def int_to_str(i):
     return z3.If(i >= 0, z3.IntToStr(i), z3.Concat(z3.StringVal("-"), z3.IntToStr(-i)))
 
 
-def str_image(v):
+def _str_image_def(v):
     """str(v): exact for str and int, None and bool; opaque otherwise."""
     return z3.If(is_str(v), Val.s(v),
            z3.If(is_int(v), int_to_str(Val.i(v)),
            z3.If(is_none(v), z3.StringVal("None"),
            z3.If(is_bool(v), z3.If(Val.b(v), z3.StringVal("True"), z3.StringVal("False")),
            z3.If(is_float(v), str_of_float(Val.r(v)), str_of(v))))))
+
+
+# the heavy observers are z3 function definitions (macros): formulas stay small and are built fast
+def _define(name, sorts, body_fn):
+    args = [z3.Const("%s!a%d" % (name, i), so) for i, so in enumerate(sorts[:-1])]
+    f = z3.RecFunction(name, *sorts)
+    z3.RecAddDefinition(f, args, body_fn(*args))
+    return f
+
+
+truthy = _define("truthy", [Val, z3.BoolSort()], _truthy_def)
+num = _define("num", [Val, z3.RealSort()], _num_def)
+str_image = _define("str_image", [Val, z3.StringSort()], _str_image_def)
 
 
 # ---------------------------------------------------------------------------------------------
